@@ -475,10 +475,10 @@ impl Property for C07 {
             Err(e) => Xc::Disagree(e),
             Ok((got, fstatus, _)) => {
                 if fstatus != fobs.status {
-                    Xc::Disagree(format!("find {:?}: status {:?} in-process, {:?} by the executable", sc.find.argv, fobs.status, fstatus))
+                    Xc::Differs(format!("find {:?}: status {:?} in-process, {:?} by the executable", sc.find.argv, fobs.status, fstatus))
                 } else if got != want {
                     let at = got.iter().zip(&want).position(|(a, b)| a != b).unwrap_or(got.len().min(want.len()));
-                    Xc::Disagree(format!(
+                    Xc::Differs(format!(
                         "find {:?} | xargs {:?}: {} paths printed in-process, {} arguments received through the real pipe; first difference at #{at}: [{}] vs [{}]",
                         sc.find.argv, xopts, want.len(), got.len(),
                         want.get(at).map(|a| crate::sys::show(a)).unwrap_or_default(), got.get(at).map(|a| crate::sys::show(a)).unwrap_or_default()
